@@ -550,8 +550,8 @@ theorem process_nf {σ} {snap : Snap} (hwf : SnapWf snap) {o : Opts} (hfol : o.f
       frames st1 = (if descends o e st.iters.length then [modelKids snap o e] else []) ++ frames st ∧
       process snap o noPre st e w =
         if st.iters.length < o.minDepth then (none, st1, w)
-        else if e.dir ∧ o.contentsFirst then (none, { st1 with deferred := e :: st1.deferred }, w)
         else if (o.files ∧ !e.file) ∨ (!o.files ∧ o.dirs ∧ !e.dir) then (none, st1, w)
+        else if e.dir ∧ o.contentsFirst then (none, { st1 with deferred := e :: st1.deferred }, w)
         else (some (.ok e), st1, w) := by
   unfold process
   simp only [hfol, noPre, mkIter_eq hwf hfol he]
@@ -812,9 +812,9 @@ theorem process_coarse {σ} {snap : Snap} (hwf : SnapWf snap) {o : Opts} (hfol :
   split
   · exact ⟨_, _, rfl, Or.inl rfl, h1, h3, Or.inl h2⟩
   · split
-    · exact ⟨_, _, rfl, Or.inl rfl, h1, h3, Or.inr ⟨rfl, by simp [h2]⟩⟩
+    · exact ⟨_, _, rfl, Or.inl rfl, h1, h3, Or.inl h2⟩
     · split
-      · exact ⟨_, _, rfl, Or.inl rfl, h1, h3, Or.inl h2⟩
+      · exact ⟨_, _, rfl, Or.inl rfl, h1, h3, Or.inr ⟨rfl, by simp [h2]⟩⟩
       · exact ⟨_, _, rfl, Or.inr rfl, h1, h3, Or.inl h2⟩
 
 def workG (snap : Snap) (o : Opts) (st : ISt) : Nat := st.deferred.length + workF snap o (frames st)
@@ -1245,28 +1245,34 @@ theorem walk_siblings {snap : Snap} (hwf : SnapWf snap) (o : Opts)
         simp at hd
         exact absurd hd.1 hne
 
-/-! ### contents first (no filter, no lower depth bound) -/
+/-! ### contents first (no lower depth bound; no filter or `dirs()`) -/
 
-/-- the options for which `contents_first` behaves: no kind filter, `min_depth = 0` -/
+/-- the options for which `contents_first` behaves and every directory passes the kind filter:
+    `min_depth = 0`, no `files()` filter (`dirs()` is allowed: since the repair of `process` a
+    directory is deferred only if it passed the filter, and with `dirs()` every directory does) -/
 structure PostOk (o : Opts) : Prop where
   cf : o.contentsFirst = true
   min : o.minDepth = 0
   files : o.files = false
-  dirs : o.dirs = false
 
-theorem selected_post {o : Opts} (ho : PostOk o) (e : Entry) (d : Nat) : selected o e d = true := by
-  simp [selected, ho.min, ho.files, ho.dirs]
+theorem selected_post {o : Opts} (ho : PostOk o) (e : Entry) (d : Nat) (hd : e.dir = true) :
+    selected o e d = true := by
+  simp [selected, ho.min, ho.files, hd]
+
+theorem selected_post_file {o : Opts} (ho : PostOk o) (e : Entry) (d : Nat) (hd : e.dir = false) :
+    selected o e d = !o.dirs := by
+  simp [selected, ho.min, ho.files, hd]
 
 theorem W_post_dir {snap : Snap} (hwf : SnapWf snap) {o : Opts} (ho : PostOk o) {e : Entry} (d : Nat)
     (he : InSnap snap e) (hd : e.dir = true) :
     W snap o e d = (if descends o e d then (children snap o e).flatMap (fun c => W snap o c (d + 1)) else []) ++ [e] := by
   rw [W_unfold hwf o d he]
-  simp [ho.cf, hd, selected_post ho]
+  simp [ho.cf, hd, selected_post ho e d hd]
 
 theorem W_post_file {snap : Snap} (hwf : SnapWf snap) {o : Opts} (ho : PostOk o) {e : Entry} (d : Nat)
-    (he : InSnap snap e) (hd : e.dir = false) : W snap o e d = [e] := by
+    (he : InSnap snap e) (hd : e.dir = false) : W snap o e d = if o.dirs then [] else [e] := by
   rw [W_unfold hwf o d he]
-  simp [hd, selected_post ho, descends]
+  cases hdd : o.dirs <;> simp [hd, selected_post_file ho e d hd, descends, hdd]
 
 /-- frames interleaved with the deferred directories (frame, then the directory it belongs to) -/
 def remQ (snap : Snap) (o : Opts) : List (List Entry) → List Entry → List Entry
@@ -1300,8 +1306,8 @@ theorem remP_step_dir {snap : Snap} (hwf : SnapWf snap) {o : Opts} (ho : PostOk 
 theorem remP_step_file {snap : Snap} (hwf : SnapWf snap) {o : Opts} (ho : PostOk o) {x : Entry}
     (hx : InSnap snap x) (hd : x.dir = false) (xs : List Entry) (fb : List (List Entry)) (df : List Entry)
     (h : df.length = fb.length + 1) :
-    remP snap o ((x :: xs) :: fb) df = x :: remP snap o (xs :: fb) df := by
-  simp [remP, h, remQ, W_post_file hwf ho _ hx hd]
+    remP snap o ((x :: xs) :: fb) df = (if o.dirs then [] else [x]) ++ remP snap o (xs :: fb) df := by
+  cases hdd : o.dirs <;> simp [remP, h, remQ, W_post_file hwf ho _ hx hd, hdd]
 
 /-- `process` with `contents_first` -/
 theorem process_post {σ} {snap : Snap} (hwf : SnapWf snap) {o : Opts} (hfol : o.follow = false)
@@ -1309,11 +1315,12 @@ theorem process_post {σ} {snap : Snap} (hwf : SnapWf snap) {o : Opts} (hfol : o
     ∃ st1 : ISt, st1.started = st.started ∧ st1.deferred = st.deferred ∧
       frames st1 = (if descends o e st.iters.length then [children snap o e] else []) ++ frames st ∧
       process snap o noPre st e w =
-        if e.dir then (none, { st1 with deferred := e :: st1.deferred }, w) else (some (.ok e), st1, w) := by
+        if e.dir then (none, { st1 with deferred := e :: st1.deferred }, w)
+        else if o.dirs then (none, st1, w) else (some (.ok e), st1, w) := by
   obtain ⟨st1, h1, h2, h3, h4⟩ := process_nf hwf hfol st e w he
   refine ⟨st1, h1, h2, by rw [h3, modelKids_eq hwf hord he], ?_⟩
   rw [h4]
-  simp [ho.min, ho.cf, ho.files, ho.dirs]
+  cases hd : e.dir <;> cases hdd : o.dirs <;> simp [ho.min, ho.cf, ho.files]
 
 theorem nextLoop_post {σ} {snap : Snap} (hwf : SnapWf snap) {o : Opts} (hfol : o.follow = false)
     (ho : PostOk o) (hord : OrdOk o) :
@@ -1417,19 +1424,36 @@ theorem nextLoop_post {σ} {snap : Snap} (hwf : SnapWf snap) {o : Opts} (hfol : 
             · exact Or.inl ih
             · exact Or.inr ⟨e, r, st', a1, a2, a3.trans b1, a4, a5, a6, by omega⟩
           | false =>
-            have hn : nextLoop snap o noPre (f + 1) ⟨started, openDesc, ⟨tp, tc, x :: xs⟩ :: below, deferred⟩ w =
-                (some (.ok x), st1, w) := by
-              simp only [nextLoop, hdef', if_false, hfol, doFollow_false, b4, hd, Bool.false_eq_true]
             have hr := remP_step_file hwf ho hx hd xs (frames ⟨started, openDesc, below, deferred⟩) deferred hdl'
             have hnd : descends o x ((frames ⟨started, openDesc, below, deferred⟩).length + 1) = false := by
               simp [descends, hd]
             rw [hnd] at b3
             simp only [Bool.false_eq_true, if_false, List.nil_append] at b3
             rw [← b3, ← hfr] at hr
-            refine Or.inr ⟨x, _, st1, by rw [hr, b2], hn, b1, hok1, ?_, rfl, ?_⟩
-            · rw [b3, b2]; exact Or.inl (by simpa using hdl')
-            · simp only [workG, hfr, b2]
+            have hdi1 : Dinv (frames st1) st1.deferred := by
+              rw [b3, b2]; exact Or.inl (by simpa using hdl')
+            have hw1 : workG snap o st1 + 2 ≤
+                workG snap o ⟨started, openDesc, ⟨tp, tc, x :: xs⟩ :: below, deferred⟩ := by
+              simp only [workG, hfr, b2]
               omega
+            cases hdd : o.dirs with
+            | false =>
+              have hn : nextLoop snap o noPre (f + 1) ⟨started, openDesc, ⟨tp, tc, x :: xs⟩ :: below, deferred⟩ w =
+                  (some (.ok x), st1, w) := by
+                simp only [nextLoop, hdef', if_false, hfol, doFollow_false, b4, hd, hdd, Bool.false_eq_true]
+              simp only [hdd, Bool.false_eq_true, if_false, List.singleton_append] at hr
+              exact Or.inr ⟨x, _, st1, by rw [hr, b2], hn, b1, hok1, hdi1, rfl, by omega⟩
+            | true =>
+              have hn : nextLoop snap o noPre (f + 1) ⟨started, openDesc, ⟨tp, tc, x :: xs⟩ :: below, deferred⟩ w =
+                  nextLoop snap o noPre f st1 w := by
+                simp only [nextLoop, hdef', if_false, hfol, doFollow_false, b4, hd, hdd, Bool.false_eq_true, if_true]
+              simp only [hdd, if_true, List.nil_append] at hr
+              have ih := nextLoop_post hwf hfol ho hord f st1 w hok1 hdi1 (by omega)
+              rw [b2] at ih
+              rw [hn]; simp only [] at ih ⊢; rw [hr]
+              rcases ih with ih | ⟨e, r, st', a1, a2, a3, a4, a5, a6, a7⟩
+              · exact Or.inl ih
+              · exact Or.inr ⟨e, r, st', a1, a2, a3.trans b1, a4, a5, a6, by omega⟩
 
 def remSP (snap : Snap) (o : Opts) (rootE : Entry) (st : ISt) : List Entry :=
   if st.started then remP snap o (frames st) st.deferred else W snap o rootE 0
@@ -1494,16 +1518,31 @@ theorem nextE_post {σ} {snap : Snap} (hwf : SnapWf snap) {o : Opts} (hfol : o.f
         refine Or.inr ⟨e, r, st', a1, a2, ⟨a4, fun _ => a5, by simp [hs']⟩, by simp [remSP, hs', a6], ?_⟩
         simp only [workGS, hs', if_true]; omega
     | false =>
-      have hn : nextE snap o noPre rootE f st w = (some (.ok rootE), st1, w) := by
-        simp only [nextE, hs, hfol, doFollow_false, Bool.not_false, if_true, b4, hd, Bool.false_eq_true, if_false]
       have hnd : descends o rootE 0 = false := by simp [descends, hd]
       rw [hnd] at b3
       simp only [Bool.false_eq_true, if_false] at b3
       have hfr : frames st1 = [] := by unfold frames; rw [b3]
-      rw [hn, W_post_file hwf ho 0 hr hd]
-      refine Or.inr ⟨rootE, [], st1, rfl, rfl, ⟨hok1, fun _ => by rw [hfr, b2]; exact Or.inl rfl, by simp [hs1]⟩, ?_, ?_⟩
-      · simp [remSP, hs1, hfr, b2, remP, remQ]
-      · simp only [workGS, hs1, if_true, workG, b2, List.length_nil]; omega
+      rw [W_post_file hwf ho 0 hr hd]
+      cases hdd : o.dirs with
+      | false =>
+        have hn : nextE snap o noPre rootE f st w = (some (.ok rootE), st1, w) := by
+          simp only [nextE, hs, hfol, doFollow_false, Bool.not_false, if_true, b4, hd, hdd, Bool.false_eq_true, if_false]
+        rw [hn]
+        refine Or.inr ⟨rootE, [], st1, by simp, rfl, ⟨hok1, fun _ => by rw [hfr, b2]; exact Or.inl rfl, by simp [hs1]⟩, ?_, ?_⟩
+        · simp [remSP, hs1, hfr, b2, remP, remQ]
+        · simp only [workGS, hs1, if_true, workG, b2, List.length_nil]; omega
+      | true =>
+        have hn : nextE snap o noPre rootE f st w = nextLoop snap o noPre f st1 w := by
+          simp only [nextE, hs, hfol, doFollow_false, Bool.not_false, if_true, b4, hd, hdd, Bool.false_eq_true, if_false]
+        left
+        obtain ⟨f', rfl⟩ : ∃ f', f = f' + 1 := ⟨f - 1, by omega⟩
+        have hit1 : st1.iters = [] := by simpa [frames] using hfr
+        refine ⟨by simp, st1, ?_⟩
+        rw [hn]
+        obtain ⟨s1, s2, s3, s4⟩ := st1
+        simp only [] at hit1 b2
+        subst hit1; subst b2
+        simp [nextLoop]
 
 theorem runIter_post {snap : Snap} (hwf : SnapWf snap) {o : Opts} (hfol : o.follow = false)
     (ho : PostOk o) (hord : OrdOk o) {rootE : Entry} (hr : InSnap snap rootE) :
@@ -1645,7 +1684,7 @@ theorem collectEntries_exact {snap : Snap} (hwf : SnapWf snap) {o : Opts} (hdom 
     collectEntries snap o rootE = .ok (entriesSpec snap o rootE) := by
   obtain ⟨hfol, hord, h | h⟩ := hdom
   · exact collectEntries_pre hwf hfol h.1 hord h.2 hr
-  · exact collectEntries_post hwf hfol ⟨h.1, h.2.1, h.2.2.1, h.2.2.2⟩ hord hr
+  · exact collectEntries_post hwf hfol ⟨h.1, h.2.1, h.2.2.1⟩ hord hr
 
 /-! ## Part E: the listing helpers (paths, dirs, files, all_*) -/
 
